@@ -12,7 +12,8 @@ THEOREMS = [
     # falcon/app.py _get_body / falcon/asgi/app.py body selection after _handle_exception, with a stream attached before the raise (model Eb.handleS / Eb.sent)
     'Eb.defined_body_is_sent', 'Eb.sent_independent_of_stale_stream', 'Eb.default_http_sends_error_body', 'Eb.default_exception_sends_error_body', 'Eb.default_status_sends_text',
     'Eb.handler_raised_http_sends_error_body', 'Eb.handler_raised_status_sends_text', 'Eb.handler_set_body_is_sent', 'Eb.handler_stream_is_sent', 'Eb.stale_stream_sent_only_if_no_body',
-    'Eb.handleS_resp', 'Eb.handleS_some_iff', 'Eb.sent_no_stream', 'Eb.stream_first_witness', 'Eb.stale_sse_discarded', 'Eb.sse_pinned_witness',
+    'Eb.handleS_resp', 'Eb.handleS_eq', 'Eb.handleS_some_iff', 'Eb.sent_no_stream', 'Eb.stream_first_witness', 'Eb.stale_sse_discarded', 'Eb.no_sse_after', 'Eb.sse_pinned_witness',
+    'Eb.handler_raised_discards_its_sse', 'Eb.handler_sse_is_sent', 'Eb.handler_sse_pinned_witness',
     # falcon/app_helpers.py default_serialize_error (model Es.serializeChoice on top of Mt.bestMatch)
     'Es.serialize_json_on_tie', 'Es.negotiated_tie_is_json', 'Es.serialize_xml_only_if_preferred_and_enabled', 'Es.serialize_xml_type',
     'Es.serialize_never_form_types', 'Es.serialize_ctype_negotiated', 'Es.serialize_none_iff', 'Es.serialize_none_accepts_nothing',
@@ -39,8 +40,11 @@ STATEMENTS = {
     'Eb.handler_set_body_is_sent': 'a handler that assigns text / data / media: that (text before data before media) is sent, never the stream attached before the raise',
     'Eb.handler_stream_is_sent': 'a handler that attaches its own stream and no text / data / media: its stream is sent',
     'Eb.stale_stream_sent_only_if_no_body': 'the stream attached before the raise is sent only if the resulting response has no text / data / media at all and the handler left resp.stream alone',
-    'Eb.stale_sse_discarded': 'after _handle_exception no server-sent events emitter is pending (ASGI, fix 4582e3b): what is sent is the rendered body, else the stream - never the events of an emitter set before the raise '
-                              '(Eb.sse_pinned_witness: before the fix the events were sent in place of the serialized error)',
+    'Eb.stale_sse_discarded': 'the result of _handle_exception does not depend on a server-sent events emitter set before the raise (ASGI, fix 4582e3b); with handlers that assign none, nothing is pending afterwards and what is '
+                              'sent is the rendered body, else the stream (Eb.no_sse_after; Eb.sse_pinned_witness: before the fix the events were sent in place of the serialized error)',
+    'Eb.handler_raised_discards_its_sse': 'if the chosen handler ends by raising an HTTPError / HTTPStatus, no emitter is pending afterwards - not even one the handler assigned - and the serialized error / the status text is '
+                                          'what is sent (fix 53e3725; Eb.handler_sse_pinned_witness: before it the handler\'s events were sent)',
+    'Eb.handler_sse_is_sent': 'a handler that assigns its own emitter and returns normally: its events are the response',
     'Eb.stream_first_witness': 'witness: with the stream consulted first (seeded change C04_11) an HTTPError raised after a stream was attached is answered with the stream; with the real order with the serialized error',
     'Eh.escape_iff': 'an exception leaves _handle_exception iff no class of the MRO is registered or the chosen handler raises something other than HTTPError/HTTPStatus',
     'Eh.default_exception_is_500_and_never_escapes': 'with the three default registrations in the history and no later registration for a class of the MRO, an Exception-derived (non-HTTPError, non-HTTPStatus) error is handled (never escapes) and yields status 500',
@@ -84,8 +88,8 @@ ASSUMPTIONS = [
     'sent, never the stale stream (judged); when the handler defines NO body at all (custom handler setting nothing, HTTPStatus without text, HTTPError / 500 when the client accepts nothing that can be '
     'produced) what is sent is not fixed by the statement - both stacks send the stream that is still attached; these cases are generated, counted (*_stale_stream_sent_*_(not_judged)) and covered by the '
     'correspondence with Eb.handleS, but not judged by the oracle (coordinator decision)',
-    'a server-sent events emitter (resp.sse, ASGI) set BEFORE the raise is judged strictly: it never shows in the error response (repaired in /repo 4582e3b, found by this dimension); error handlers that '
-    'assign resp.sse themselves and then raise are not generated (reported: the events still replace the raised HTTPError / HTTPStatus)',
+    'a server-sent events emitter (resp.sse, ASGI) is judged strictly: one set BEFORE the raise never shows in the error response, one that an error handler assigns before RAISING an HTTPError / HTTPStatus '
+    'is a draft like text / data / media (both repaired in /repo, 4582e3b and 53e3725, found by this dimension); one that a handler assigns before returning is the response it defines',
     'media handler objects are truthy and none is registered under the literal key "*/*" (needed only by Es.serialize_xml_type and the second half of Es.serialize_typeOnly_only)',
     'Accept headers come from a well-formed grammar of up to 3 media ranges with q in {absent, 0, 0.1, 0.5, 0.9, 1}, in any letter case (see above)',
 ]
@@ -98,7 +102,9 @@ RULE = ('[three dimensions added after seeds C04_10 / C04_11 / C04_12 - the stat
         'of parts (a), (b), (c), both stacks, plus handlers that attach / clear a stream themselves: the body sent must be the one the handler / the default rendering defines, never the stale stream '
         '(new model Eb.handleS / Eb.sent in the correspondence of (b): ehdriver op `handles`); on ASGI also a server-sent events emitter (resp.sse = emitter()) set before the raise, alone or next to a '
         'stream / text / data / media, parts (a), (b), (c): it takes precedence over every body, so it must never show in the error response - this found that the ASGI _handle_exception did not discard '
-        'it (every error response consisted of the events), repaired in /repo 4582e3b; '
+        'it (every error response consisted of the events), repaired in /repo 4582e3b; handler outcomes extended: the handler attaches / clears a stream, assigns its own emitter and returns (its events are the '
+        'response), or assigns an emitter (alone or with text / data / media drafts) and then raises HTTPError / HTTPStatus (the raised object must be rendered - found the same leak in the handler-raised branches, '
+        'repaired in /repo 53e3725); '
         '(iii) header octets: Accept headers with obs-text (latin-1 text, well-formed and ill-formed UTF-8, NBSP / NEL, 0xFF) in unknown members and parameters (type choice still judged), or as stray '
         'octets anywhere / inside q values / as the whole value (never escapes, status, headers, Vary, faithful body judged), and such octets in up to 3 other request headers (User-Agent, Content-Type, '
         'Cookie, Accept-Language ...), WSGI (native latin-1 strings) and ASGI (bytes), parts (c) and (d)] '
@@ -128,7 +134,7 @@ PARTIAL = ('Proved in Lean: handler resolution (nearest class in the MRO, latest
            'rendered in turn, escape iff unhandled or the handler raises something else, defaults => 500 / own status); the content negotiation of default_serialize_error on top of the proved '
            'model of mediatypes.best_match (JSON wins every tie, XML only if preferred and enabled, form types never, nothing iff nothing accepted and no +json/+xml suffix, Vary: Accept always '
            'appended); the field set of HTTPError.to_dict; status and headers kept by _compose_error_response / _compose_status_response; the body sent when a stream was attached before the raise (rendered body before stream: a body the handler '
-           'defines is sent whatever the stale stream, and an emitter set before the raise discarded, Eb.stale_sse_discarded). NOT proved: error handlers that assign resp.sse themselves are not in the Eb model; that every raise window of App.__call__ is '
+           'defines is sent whatever the stale stream, an emitter set before the raise or assigned by a handler that then raises is discarded, Eb). NOT proved: that every raise window of App.__call__ is '
            'wrapped (checked by the raise-site generator + oracle, and by C03\'s pipeline correspondence); the faithfulness of the JSON/XML/media-handler encoders and of uri.encode for the link '
            '(checked by parsing the emitted body with the standard library and comparing every field); Response header emission after composition (C05); the negotiation model is restricted to '
            'ASCII Accept headers with q values of at most four decimals (other inputs answer "unsupported").')
@@ -648,10 +654,11 @@ def _sites(ctx):
     name = 'raise sites: body set before the raise is discarded; the response is what the handler defines; handler-raised HTTPError/HTTPStatus is rendered; default 500 never escapes; body of a render-time error is sent'
     sites = SITES + ['render415']
     outcomes = ['set_text', 'set_data', 'set_media', 'nothing', 'raise_http', 'raise_status', 'raise_plain',
-                'draft_raise_http', 'draft_raise_status', 'draft_raise_status_notext', 'set_stream', 'clear_stream']
+                'draft_raise_http', 'draft_raise_status', 'draft_raise_status_notext', 'set_stream', 'clear_stream', 'set_sse']
     HANDLER_STREAM = b'HANDLER-stream-' + b'abcdefghij' * 2
+    HANDLER_SSE = b'HANDLER-sse-event'
     combos = [(st, site, exc, out) for st in ('wsgi', 'asgi') for site in sites for exc in ('http', 'status', 'plain', 'custom')
-              for out in (outcomes if exc == 'custom' else [None])]
+              for out in (outcomes if exc == 'custom' else [None]) if not (out == 'set_sse' and st == 'wsgi')]      # (resp.sse exists on ASGI only)
     i, k = ctx.shard
     todo = [c for j, c in enumerate(combos) if j % k == i] if not ctx.searching else []
     todo = todo * (1 if ctx.quick else 4)
@@ -684,6 +691,11 @@ def _sites(ctx):
         Status = X.build(ckind, 'Status', (falcon.HTTPStatus,)) if hostile else falcon.HTTPStatus
         called = []
         drafts = [p for p in ('text', 'data', 'media') if rnd.random() < 0.6] or [rnd.choice(['text', 'data', 'media'])]
+        # the handler assigns its own server-sent events emitter (ASGI): if it then RAISES an HTTPError / HTTPStatus, that is what must be
+        # rendered (the emitter is a draft like text / data / media); if it returns, the events are the response it defines
+        hsse = asgi and (out == 'set_sse' or (out is not None and out.startswith('draft_') and rnd.random() < 0.4))
+        if hsse and out != 'set_sse':
+            drafts = drafts + ['sse'] if rnd.random() < 0.7 else ['sse']
 
         def make():
             if site == 'render415':
@@ -725,6 +737,11 @@ def _sites(ctx):
             preset(resp)
             X.throw(tkind, make)
 
+        def handler_emitter(resp):
+            async def emitter():
+                yield falcon.asgi.SSEvent(data=HANDLER_SSE)
+            resp.sse = emitter()
+
         def hbody(resp):
             called.append(out)
             resp.status = 233
@@ -742,9 +759,11 @@ def _sites(ctx):
                 if 'media' in drafts:
                     resp.media = {'DRAFT': 'media'}
                     if site not in ('render', 'render415'): resp.content_type = falcon.MEDIA_JSON
+                if 'sse' in drafts: handler_emitter(resp)
                 if out == 'draft_raise_http': raise Gone(title='T-gone', headers={'X-Err': 'e2'})
                 if out == 'draft_raise_status': raise Status(298, headers={'X-St': 's2'}, text='handler-status-text')
                 raise Status(297, headers={'X-St': 's3'})
+            elif out == 'set_sse': handler_emitter(resp)
             elif out == 'raise_plain': raise KeyError('raised inside the handler')
             elif out == 'set_stream': _attach_stream(resp, asgi, rnd.choice(STREAM_KINDS), rnd.choice(['stream', 'set_stream']), HANDLER_STREAM)
             elif out == 'clear_stream': resp.stream = None
@@ -811,6 +830,7 @@ def _sites(ctx):
             elif out == 'draft_raise_status': what = expect(298, body=b'handler-status-text', hdr=('x-st', 's2'))
             elif out == 'draft_raise_status_notext': what = expect(297, body=b'', hdr=('x-st', 's3'))
             elif out == 'set_stream': what = expect(233, body=HANDLER_STREAM)
+            elif out == 'set_sse': what = expect(233, body=b'data: ' + HANDLER_SSE + b'\n\n')
             elif out == 'clear_stream': what = expect(233, body=b'')
             elif out == 'raise_plain':
                 if r.escaped is None and r.status != 500:
@@ -819,6 +839,8 @@ def _sites(ctx):
             what = f'content set before the raise was sent: {r.body[:80]!r}' + (' (the stream attached before the raise)' if r.body == STALE_STREAM else '')
         if psse and r.escaped is None and _is_stale_sse(r.body):
             what = f'the server-sent events emitter set before the raise was used for the response instead of what the handler defines: status {r.status}, body {r.body[:80]!r}'
+        if hsse and out != 'set_sse' and r.escaped is None and HANDLER_SSE in r.body:
+            what = f'the server-sent events emitter the handler assigned before raising was used instead of the raised error/status: status {r.status}, body {r.body[:80]!r}'
         if what is None and b'DRAFT' in r.body:
             what = f'content the handler set before raising was sent instead of the raised error/status: {r.body[:80]!r}'
         case = {'stack': stack, 'site': site, 'raised': raised, 'handler_outcome': out, 'preset': presets, 'preset_rendered_once': primed, 'via_testing': ci % 16 == 5,
@@ -836,10 +858,12 @@ def _sites(ctx):
         sess.op(f'reg 4 {D_EXC}', 'ok'); sess.op(f'reg 2 {D_HTTP}', 'ok'); sess.op(f'reg 3 {D_STATUS}', 'ok')
         if raised == 'custom':
             sess.op('reg 1 7', 'ok')
+            dl = ''.join(p[0] for p in drafts if p != 'sse') or '-'
             beh = {'set_text': 'sets:233:1', 'set_data': 'sets:233:2', 'set_media': 'sets:233:3', 'nothing': 'sets:233:0', 'set_stream': 'sets:233:0', 'clear_stream': 'sets:233:0',
+                   'set_sse': 'sets:233:0',
                    'raise_http': 'http:410', 'raise_status': 'status:298', 'raise_plain': 'other',
-                   'draft_raise_http': 'drafthttp:410:' + ''.join(p[0] for p in drafts), 'draft_raise_status': 'draftstatus:298:' + ''.join(p[0] for p in drafts),
-                   'draft_raise_status_notext': 'draftstatus:297:' + ''.join(p[0] for p in drafts)}[out]
+                   'draft_raise_http': 'drafthttp:410:' + dl, 'draft_raise_status': 'draftstatus:298:' + dl,
+                   'draft_raise_status_notext': 'draftstatus:297:' + dl}[out]
             sess.op(f'behave 7 {beh}', 'ok')
         pre = ''.join(c for c, p in (('t', 'text'), ('d', 'data'), ('m', 'media')) if p in presets) or '-'
         if r.escaped is not None:
@@ -847,10 +871,11 @@ def _sites(ctx):
         else:
             # body source: 0 none, 1 text, 2 data, 3 media (handler), 4 serialized error, 5 status text, 9 preset leaked
             # 6 the stream attached before the raise, 7 the stream attached by the handler
-            # 8 the server-sent events of the emitter set before the raise
+            # 8 the server-sent events of the emitter set before the raise, 10 those of the emitter the handler assigned; 99 anything else
             if r.body == STALE_STREAM: src = 6
             elif r.body == HANDLER_STREAM: src = 7
             elif _is_stale_sse(r.body): src = 8
+            elif HANDLER_SSE in r.body: src = 10
             elif b'PRESET' in r.body: src = 9
             elif r.body == b'DRAFT-text': src = 1
             elif r.body == b'DRAFT-data': src = 2
@@ -861,22 +886,24 @@ def _sites(ctx):
             elif j == {'handler': 'media'}: src = 3
             elif isinstance(j, dict) and 'title' in j: src = 4
             elif r.body in (b'status-text', b'handler-status-text'): src = 5
-            else: src = 8
+            else: src = 99
             obs = f'status={r.status} body={src}'
         if out != 'draft_raise_status_notext':       # (Eh.composeStatus always carries a text; the text-less HTTPStatus is judged by the oracle only)
-            if pstream or psse or out in ('set_stream', 'clear_stream'):
+            if pstream or psse or hsse or out in ('set_stream', 'clear_stream'):
                 # Eb.handleS + Eb.sent: _handle_exception leaves resp.stream alone, the rendered body is sent before any stream
-                act = {'set_stream': 's', 'clear_stream': 'c'}.get(out, 'k')
+                act = {'set_stream': 's', 'clear_stream': 'c'}.get(out, 'k') + ('e' if hsse else '')
                 sess.op(f'handles {mro} {st_raised} {pre.replace("-", "") + ("s" if pstream else "") + ("e" if psse else "") or "-"} {act}', obs)
             else:
                 sess.op(f'handle {mro} {st_raised} {pre}', obs)
-        ctx.seen(('b', stack, site, raised, out, tuple(presets), ckind, tkind, pstream, psse), True)
+        ctx.seen(('b', stack, site, raised, out, tuple(presets), ckind, tkind, pstream, psse, hsse), True)
         ctx.count('b_site_' + site)
         if pstream:
             ctx.count(f'b_stale_stream_{stack}_{pstream[0]}_{pstream[1]}' + ('' if presets else '_alone'))
             ctx.count('b_stale_stream_site_' + site)
         if psse:
             ctx.count('b_stale_sse_site_' + site + ('_with_stream' if pstream else ''))
+        if hsse:
+            ctx.count('b_handler_assigns_sse_then_' + ('returns' if out == 'set_sse' else out[6:]))
         ctx.count('b_object_' + ckind)
         ctx.count('b_raised_how_' + tkind)
         if hostile:
